@@ -9,7 +9,8 @@ LEVEL = "model_checking"
 def sig(m):
     c = m["case"]["case"]
     ob = m["observed"]
-    bad = sorted(k for k in ob if m["case"]["exp"].get(k) != ob[k])
+    exp = m["case"]["exp"]
+    bad = sorted(k for k in ob if exp.get(k) != ob[k]) if isinstance(ob, dict) and isinstance(exp, dict) else ["answer"]
     return f"replay:{c['t']}:{c.get('kind', 'cross')}:{m['on']}:{'+'.join(bad)[:60]}"
 
 
